@@ -6,6 +6,9 @@ From C09 Require Gen_UIntMath Gen_MemPoolConst Gen_MemPool Gen_MemPoolData PoolL
 Import ListNotations.
 Local Open Scope Z_scope.
 
+(* x * B <= y * B from x <= y, 0 <= B without a certificate search (nia on these goals costs 5-50 s when its cache is cold) *)
+Ltac mulmono := first [apply Z.mul_le_mono_nonneg_r; lia | nia].
+
 Lemma two64 : 2 ^ 64 = 18446744073709551616. Proof. reflexivity. Qed.
 Lemma two63 : 2 ^ 63 = 9223372036854775808. Proof. reflexivity. Qed.
 
@@ -234,7 +237,8 @@ Proof.
     - exists (t + 1), 0. repeat split; try lia. rewrite <- pt_carry. unfold pt. rewrite <- E. ring.
     - exists t, (q + q mod 2). repeat split; try lia. unfold pt. ring. }
   rewrite E1.
-  assert (pt T1 Q1 <= pt t q + A) as B1 by nia.
+  assert (pt T1 Q1 <= pt t q + A) as B1
+    by (rewrite <- E1; assert (A * (q mod 2) <= A * 1) by (apply Z.mul_le_mono_nonneg_l; lia); lia).
   (* step 2 (lines 613-614) *)
   rewrite (wrapU_small 64 (pt T1 Q1 + A)) by (rewrite two64; lia).
   set (p2 := if (pt T1 Q1 + A) mod B =? 0 then pt T1 Q1 + A else pt T1 Q1).
@@ -252,12 +256,13 @@ Proof.
   clearbody p2. subst p2.
   (* step 3 (lines 615-616) *)
   rewrite pt_div by assumption.
-  rewrite (wrapU_small 64 (pt T2 Q2 + A)) by (rewrite two64; nia).
-  assert (0 <= (m mod 2) * A <= A) as Hm2A by nia.
+  assert (0 <= (m mod 2) * A <= A) as Hm2A.
+  { split; [apply Z.mul_nonneg_nonneg; lia|]. rewrite <- (Z.mul_1_l A) at 2. apply Z.mul_le_mono_nonneg_r; lia. }
+  rewrite (wrapU_small 64 (pt T2 Q2 + A)) by (rewrite two64; lia).
   destruct (Z.eqb_spec (T2 mod C) 0) as [Ez|Ez].
-  - rewrite (wrapU_small 64 (pt T2 Q2 + A - begin)) by (rewrite two64; nia).
+  - rewrite (wrapU_small 64 (pt T2 Q2 + A - begin)) by (rewrite two64; lia).
     change (wrapU 64 (Z.shiftl 1 16)) with 65536.
-    destruct (Z.ltb_spec (pt T2 Q2 + A - begin) 65536) as [L|L]; [|nia].
+    destruct (Z.ltb_spec (pt T2 Q2 + A - begin) 65536) as [L|L]; [|lia].
     exists (pt T2 Q2 + A). split; [reflexivity|]. split; [|assumption].
     exists T2, (Q2 + 1). rewrite pt_stepA. repeat split; try lia.
     + rewrite <- pt_stepA. lia.
@@ -265,9 +270,9 @@ Proof.
       * rewrite <- Z.add_mod_idemp_l by lia. rewrite HQ2e. reflexivity.
       * rewrite <- pt_stepA. lia.
       * rewrite <- pt_stepA. nia.
-  - rewrite (wrapU_small 64 (pt T2 Q2 - begin)) by (rewrite two64; nia).
+  - rewrite (wrapU_small 64 (pt T2 Q2 - begin)) by (rewrite two64; lia).
     change (wrapU 64 (Z.shiftl 1 16)) with 65536.
-    destruct (Z.ltb_spec (pt T2 Q2 - begin) 65536) as [L|L]; [|nia].
+    destruct (Z.ltb_spec (pt T2 Q2 - begin) 65536) as [L|L]; [|lia].
     exists (pt T2 Q2). split; [reflexivity|]. split; [|assumption].
     exists T2, Q2. repeat split; try lia; try (left; repeat split; try lia; nia).
 Qed.
@@ -422,21 +427,21 @@ Proof.
       * destruct ((first <? 0) && (0 <=? first + j)); destruct (3 <=? A); lia.
       * subst first. change (0 <? 0) with false. simpl andb. cbv iota. destruct (3 <=? A); lia.
     + intros j' Hj'. rewrite (Hblk j' ltac:(lia)).
-      assert ((j + 1) * B <= j' * B) by nia.
+      assert ((j + 1) * B <= j' * B) by mulmono.
       destruct (Z.ltb_spec first 0); simpl andb; [|lia].
       destruct (Z.leb_spec 0 (first + j)); destruct (Z.leb_spec 0 (first + j')); lia.
     + intros p len Hin. destruct (Hmeta p len Hin) as [(Ep & El)|[(HA3 & Ep & El)|(Hp1 & Hp2)]].
       * subst p len. destruct Hcase as [(?&?&?&Ef&Eb&?)|(?&?&Ef&Eb&?&?)].
         -- assert (first <? 0 = true) as -> by (apply Z.ltb_lt; lia). simpl andb.
            destruct (Z.leb_spec 0 (first + j)).
-           ++ left. rewrite Eb. assert (- first * B <= j * B) by nia. lia.
-           ++ right. rewrite Eb. assert ((j + 1) * B <= - first * B) by nia. lia.
+           ++ left. rewrite Eb. assert (- first * B <= j * B) by mulmono. lia.
+           ++ right. rewrite Eb. assert ((j + 1) * B <= - first * B) by mulmono. lia.
         -- subst first. change (0 <? 0) with false. simpl andb. cbv iota. left. lia.
       * subst p len. destruct Hcase as [(?&?&?&Ef&Eb&?)|(?&?&Ef&Eb&?&?)].
         -- assert (first <? 0 = true) as -> by (apply Z.ltb_lt; lia). simpl andb.
            destruct (Z.leb_spec 0 (first + j)).
-           ++ left. rewrite Eb. assert (- first * B <= j * B) by nia. lia.
-           ++ right. rewrite Eb. assert ((j + 1) * B <= - first * B) by nia. lia.
+           ++ left. rewrite Eb. assert (- first * B <= j * B) by mulmono. lia.
+           ++ right. rewrite Eb. assert ((j + 1) * B <= - first * B) by mulmono. lia.
         -- subst first. change (0 <? 0) with false. simpl andb. cbv iota. left. lia.
       * right. destruct Hcase as [(?&?&?&Ef&Eb&?)|(?&?&Ef&Eb&?&?)].
         -- rewrite Eb in Hp1. destruct ((first <? 0) && (0 <=? first + j)); nia.
